@@ -226,6 +226,9 @@ func (e *Engine) strEq(a, b string) string {
 		return "true"
 	}
 	key := "ext:" + a + "|" + b
+	if hasBound(a) || hasBound(b) {
+		return sEq(a, b)
+	}
 	if !e.sc.declared[key] {
 		e.sc.declared[key] = true
 		d := fmt.Sprintf("(sdiff %s %s)", a, b)
